@@ -11,6 +11,7 @@ import Adlt.Args.Drv
 import Adlt.Plugins.Drv
 import Adlt.Remote.Drv
 import Adlt.Remote.IncrDrv
+import Adlt.Convert.Drv
 /-! `driver <area>`: reads `case \t implobs` lines on stdin, prints one result line each. -/
 def main (args : List String) : IO UInt32 := do
   let stdin ← IO.getStdin
@@ -30,4 +31,5 @@ def main (args : List String) : IO UInt32 := do
   | ["plg"] => Util.loop stdin Plg.doLine; return 0
   | ["rem"] => Util.loop stdin Rem.doLine; return 0
   | ["rsn"] => Util.loop stdin Inc.doLine; return 0
+  | ["cvt"] => Util.loop stdin Cvt.doLine; return 0
   | _ => IO.eprintln "usage: driver <area>"; return 2
